@@ -23,6 +23,12 @@ type Case struct {
 	Query    string         `json:"query"`
 	Params   map[string]any `json:"params,omitempty"`
 	Features []string       `json:"features,omitempty"`
+
+	// EvaluateOptionalMatchPrefix lets the exclusion of optional-match-duplicate-origin-rows decide by evaluating the
+	// query prefix on this graph (findings.go OptionalMatchAfterDuplicableRows). Set by C01 only, where every other
+	// open defect that changes the incoming rows has an exclusion of its own; C02 and C03 compare or inspect SQL whose
+	// incoming rows can differ from the reference's for reasons that are not open findings of theirs.
+	EvaluateOptionalMatchPrefix bool `json:"-"`
 }
 
 // UnmarshalJSON keeps integers integral (a replayed case must be the generated case).
